@@ -147,6 +147,7 @@ func loadRepo(repo string, needSSA bool) (*Ctx, error) {
 			return nil, loadError{"no SSA for " + path}
 		}
 	}
+	buildHelperIdx(c)
 	for fn := range ssautil.AllFunctions(prog) {
 		if fn.Pkg != nil && c.isRepoPkg(fn.Pkg.Pkg.Path()) {
 			c.Stats.Functions++
